@@ -38,6 +38,21 @@ CLAIMED = {
    note='The oslopolicy-validator return code (missing file, unknown names, unparseable rule) is checked differentially only.',
    technique='Coq proof (inductive hit relation mirroring the DFS, room measure for fuel, graph-theoretic reading) + generated walker facts + differential correspondence',
    design='6 C13'),
+ 'C07': dict(
+   text='Proof (Coq): the decision part of Enforcer.enforce (from the isinstance(rule, BaseCheck) dispatch to the end) and authorize are translated from source into decision trees on every run; a bridge theorem proves the hand model equal to the tree (exhaustive atom case analysis), and on the model: do_raise off returns falsy exactly when do_raise on raises; the raised exception is the caller class / PolicyNotAuthorized, or InvalidScope on scope mismatch; allowed never raises; do_raise never returns falsy; evaluation errors are the same in both modes; authorize = enforce for registered names and PolicyNotRegistered otherwise; non-mapping credentials raise InvalidContextObject. Differential: generated rule sets x do_raise x exc class with args/kwargs x debug logging x name/object x authorize. Partial: that the debug dump (mask_dict_password, jsonutils.dumps) neither fails nor mutates is library behaviour, checked by snapshot only.',
+   note='The translator checks the prefix of enforce (load_rules, type gate, system_scope mirror, debug block assigning only its own locals) textually.',
+   technique='Coq proof over a decision tree generated from source (bridge + case analysis) + differential correspondence',
+   design='6 C07'),
+ 'C08': dict(
+   text='Proof (Coq): _enforce_scope is translated from source into a decision tree each run and proved equal to the documented table for EVERY list of scope-type strings (token scope = system > domain > project; mismatch with enforcement on => False or InvalidScope); placed in enforce: a mismatch denies whatever the check is, and a match / enforcement off / no scope types leaves exactly the decision of the check; system_scope is mirrored into system. Differential: the complete finite table of the quantifier (16384 rows) against the statement read directly and against the model. Partial: interchangeability of RequestContext / to_policy_values / dict is oslo.context behaviour, checked differentially only.',
+   note='scope types come from the registered default in the model exactly as in enforce (registered_rules.get(rule)).',
+   technique='Coq proof over a decision tree generated from source + exhaustive finite table',
+   design='6 C08'),
+ 'C14': dict(
+   text='Proof (Coq): for every tree over constants, references, role and generic checks whose match templates are well-formed %(key)s templates over a mapping target, roles a list of strings (or absent) and literal_eval raising only ValueError/SyntaxError/TypeError, evaluation yields a decision (or OutOfFuel, excluded by acyclicity), and whatever escapes enforce is PolicyNotAuthorized / the caller class / InvalidScope / InvalidContextObject / PolicyNotRegistered; the path walk and the generic check never raise (F3/F4 repairs re-proved against the generated except clauses); a lone operator/parenthesis/quoted string is never returned as a rule (F1, see C02). Differential: hostile left sides x credentials with every JSON type at every path position.',
+   note='Assumes ast.literal_eval raises only ValueError, TypeError, SyntaxError (MemoryError/RecursionError = resource exhaustion, excluded); http: and custom checks are outside the quantifier.',
+   technique='Coq proof (induction on fuel and tree with generated handler sets) + differential correspondence',
+   design='6 C14'),
 }
 REASON_PENDING = 'check not built yet in this session (model/theorems in progress); not claimed'
 def main():
